@@ -693,10 +693,14 @@ theorem pull_some {e e' : Evm} {t : Token} {a : Acct} {n : Nat} (h : pull e t a 
     · rename_i e1 hs
       split at hs
       · cases hs
-      · have := (Option.some.inj hs).symm
-        subst this
-        have := debit_some h
-        exact ⟨_, this⟩
+      · split at hs
+        · have := (Option.some.inj hs).symm
+          subst this
+          exact ⟨_, debit_some h⟩
+        · have := (Option.some.inj hs).symm
+          subst this
+          have := debit_some h
+          exact ⟨_, this⟩
 
 structure SendEvmEff (cfg : Cfg) (me : ChainId) (seq : Nat) (e e' : Evm) (a : SendArgs) (p : Packet) : Prop where
   src : p.src = me
@@ -889,6 +893,8 @@ theorem recvTransfer_eff {cfg : Cfg} {e e1 : Evm} {p : Packet} {tok : Token} {k 
       split at h
       · cases h
       rename_i v hv
+      split at h
+      · cases h
       have he : e1 = _ := (Prod.mk.inj (Option.some.inj h)).1.symm
       subst he
       refine ⟨?_, ?_, ?_, rfl, rfl, rfl, rfl, ?_⟩
@@ -1011,6 +1017,8 @@ theorem refund_eff {cfg : Cfg} {e e' : Evm} {p : Packet} (h : refund cfg e p = s
   rename_i t ht
   split at h
   · rename_i o hori
+    split at h
+    · cases h
     have he := (Option.some.inj h).symm
     subst he
     refine ⟨?_, ?_, rfl, rfl, rfl, rfl, ?_⟩
@@ -1206,6 +1214,19 @@ theorem ack_eff {cfg : Cfg} {me : ChainId} {c c' : Chain} {p : Packet} {code : N
       have a2 := (refund_eff hr).2.2.2.2.2.2 F
       exact Nat.le_trans a1 (Nat.add_le_add_right (Nat.le_trans a2 a3) _)
 
+/-- the message goes through only if the callback contract does not revert, and then it is the handler's result -/
+theorem ackMsg_some {cfg : Cfg} {me : ChainId} {c c' : Chain} {p : Packet} {code : Nat} {rel : Option Acct} {cb : Bool}
+    (h : ackMsg cfg me c p code rel cb = some c') :
+    ackHandler cfg me c p code rel = some c' ∧ ¬ (p.cbSwitch = true ∧ cb = true) := by
+  unfold ackMsg at h
+  split at h
+  · cases h
+  · rename_i hn; exact ⟨h, hn⟩
+
+theorem ackMsg_of_handler_none {cfg : Cfg} {me : ChainId} {c : Chain} {p : Packet} {code : Nat} {rel : Option Acct} {cb : Bool}
+    (h : ackHandler cfg me c p code rel = none) : ackMsg cfg me c p code rel cb = none := by
+  unfold ackMsg; split <;> simp [h]
+
 theorem recv_eff {cfg : Cfg} {me : ChainId} {c c' : Chain} {p : Packet}
     (h : recvHandler true cfg me c p = some c') :
     p.dst = me ∧ c.receipts p.src p.seq = false ∧
@@ -1290,7 +1311,7 @@ theorem sendKeeper_seq {cfg : Cfg} {c c' : Chain} {p : Packet} (h : sendKeeper c
     p.seq = c.nextSeq p.dst := by
   unfold sendKeeper at h
   split at h
-  · rename_i hc; exact hc.2
+  · rename_i hc; exact hc.2.1
   · cases h
 
 /-- the interleaved reading of a batch: each leg's EVM part (with the sequence numbers read at the START of the
@@ -1346,10 +1367,10 @@ theorem twoPhase_eq_batchI (cfg : Cfg) (self : ChainId) (seq0 : ChainId → Nat)
     | some r =>
       obtain ⟨e1, p⟩ := r
       simp only
-      by_cases hk : cfg.clients p.dst = true ∧ p.seq = c.nextSeq p.dst
+      by_cases hk : cfg.clients p.dst = true ∧ p.seq = c.nextSeq p.dst ∧ p.seq + 1 < U64
       · have hk1 : sendKeeper cfg { c with evm := e1 } p =
             some { c with evm := e1, nextSeq := upd1 c.nextSeq p.dst (p.seq + 1), commits := p :: c.commits } := by
-          simp [sendKeeper, hk]
+          unfold sendKeeper; rw [if_pos hk]
         rw [hk1]
         have ih := twoPhase_eq_batchI cfg self seq0 strict ls
           { c with evm := e1, nextSeq := upd1 c.nextSeq p.dst (p.seq + 1), commits := p :: c.commits }
@@ -1360,7 +1381,7 @@ theorem twoPhase_eq_batchI (cfg : Cfg) (self : ChainId) (seq0 : ChainId → Nat)
         | none => rfl
         | some r2 =>
           obtain ⟨e2, ps⟩ := r2
-          simp only [hookPackets_packet, batchKeeper, sendKeeper, hk, and_self, ↓reduceIte]
+          simp only [hookPackets_packet, batchKeeper, sendKeeper, if_pos hk]
       · have hk1 : ∀ e, sendKeeper cfg { c with evm := e } p = none := by
           intro e; simp [sendKeeper, hk]
         rw [hk1]
@@ -1498,6 +1519,11 @@ theorem inv_step (w : World) (s : Step) (h : Inv w) : Inv (step true w s) := by
   | register i addr rank chains =>
     simp only [step]
     exact inv_ext (w2 := w) rfl rfl h
+  | cbset i on =>
+    simp only [step]
+    exact inv_ext (w2 := w) rfl rfl h
+  | restart i whole => exact h
+  | discard s => exact h
   | recv src dst seq signer =>
     simp only [step]
     split
@@ -1536,11 +1562,13 @@ theorem inv_step (w : World) (s : Step) (h : Inv w) : Inv (step true w s) := by
     split
     · exact h
     rename_i c ha
-    obtain ⟨_, e⟩ := ack_eff ha
+    obtain ⟨_, e⟩ := ack_eff (ackMsg_some ha).1
     have hack : (w.chains p.dst).acks src p.seq = some code := by rw [hpd, hps]; exact hcode
     exact ⟨wf_ack w src c p code h.1 e, conserved_ack w src c p code h.2 hack e⟩
   | mint i t who n =>
     simp only [step]
+    split
+    · exact h
     exact inv_frame w i _ h.1 h.2 rfl rfl rfl rfl rfl rfl
   | approve i t who n =>
     simp only [step]
@@ -1764,16 +1792,17 @@ structure GInv (w : World) : Prop where
         ((w.chains S).evm.refunded D q = 1 → ∃ code, code ≠ 0 ∧ (w.chains D).acks S q = some code)
   g3 : ∀ S p, p ∈ (w.chains S).commits → (w.chains S).evm.refunded p.dst p.seq = 0
   g8 : ∀ S D q, (w.chains S).nextSeq D ≤ q → (w.chains S).evm.refunded D q = 0
-  g7 : ∀ S D q, 0 < q → q < (w.chains S).nextSeq D →
+  g7 : ∀ S D q, (w.cfg S).seq0 D ≤ q → q < (w.chains S).nextSeq D →
         Pending w S D q ∨ (w.chains D).acks S q = some 0 ∨ (w.chains S).evm.refunded D q = 1
 
-theorem ginv_ext {w1 w2 : World} (hch : w1.chains = w2.chains) (g : GInv w2) : GInv w1 := by
+theorem ginv_ext {w1 w2 : World} (hc : w1.cfg = w2.cfg) (hch : w1.chains = w2.chains) (g : GInv w2) : GInv w1 := by
   refine ⟨?_, ?_, ?_, ?_, ?_⟩
   · rw [hch]; exact g.g1
   · rw [hch]; exact g.g2
   · rw [hch]; exact g.g3
   · rw [hch]; exact g.g8
   · intro S D q h0 hq
+    rw [hc] at h0
     rw [hch] at hq ⊢
     rcases g.g7 S D q h0 hq with h | h | h
     · exact Or.inl ((pending_ext hch S D q).mpr h)
@@ -2063,7 +2092,12 @@ theorem full_step (w : World) (s : Step) (h : FullInv w) : FullInv (step true w 
       exact ginv_send w i c p g e
   | register i addr rank chains =>
     simp only [step]
-    exact ginv_ext (w2 := w) rfl g
+    exact ginv_ext (w2 := w) rfl rfl g
+  | cbset i on =>
+    simp only [step]
+    exact ginv_ext (w2 := w) rfl rfl g
+  | restart i whole => exact g
+  | discard s => exact g
   | recv src dst seq signer =>
     simp only [step]
     split
@@ -2076,7 +2110,7 @@ theorem full_step (w : World) (s : Step) (h : FullInv w) : FullInv (step true w 
     split
     · exact g
     rename_i c hr
-    refine ginv_ext (w2 := w.set dst c) rfl ?_
+    refine ginv_ext (w2 := w.set dst c) rfl rfl ?_
     obtain ⟨hd, hrc, code, cR, eR, hfin⟩ := recv_eff hr
     have hsrc : p.src = src := (hw.pkt src p hmem).1
     have hmem' : p ∈ (w.chains p.src).commits := by rw [hsrc]; exact hmem
@@ -2100,11 +2134,13 @@ theorem full_step (w : World) (s : Step) (h : FullInv w) : FullInv (step true w 
     split
     · exact g
     rename_i c ha
-    obtain ⟨_, e⟩ := ack_eff ha
+    obtain ⟨_, e⟩ := ack_eff (ackMsg_some ha).1
     have hack : (w.chains p.dst).acks src p.seq = some code := by rw [hpd, hps]; exact hcode
     exact ginv_ack w src c p code hw g hack e
   | mint i t who n =>
     simp only [step]
+    split
+    · exact g
     exact ginv_frame w i _ g rfl rfl rfl rfl rfl
   | approve i t who n =>
     simp only [step]
@@ -2139,7 +2175,7 @@ def Refunded (w : World) (S D : ChainId) (q : Nat) : Prop :=
   ¬ Pending w S D q ∧ (∃ code, code ≠ 0 ∧ (w.chains D).acks S q = some code) ∧
     (w.chains D).evm.credited S q = 0 ∧ (w.chains S).evm.refunded D q = 1
 
-theorem outcome_of_inv (w : World) (g : GInv w) (S D : ChainId) (q : Nat) (h0 : 0 < q)
+theorem outcome_of_inv (w : World) (g : GInv w) (S D : ChainId) (q : Nat) (h0 : (w.cfg S).seq0 D ≤ q)
     (hq : q < (w.chains S).nextSeq D) :
     (PendingOnly w S D q ∧ ¬ Delivered w S D q ∧ ¬ Refunded w S D q) ∨
     (Delivered w S D q ∧ ¬ PendingOnly w S D q ∧ ¬ Refunded w S D q) ∨
@@ -2175,8 +2211,8 @@ theorem outcome_of_inv (w : World) (g : GInv w) (S D : ChainId) (q : Nat) (h0 : 
 /-- **One outcome.** After any history, every packet that was ever sent (sequence `q` below the source's next
 sequence towards `D`) is in exactly one of: pending / delivered (success acknowledgement, effects applied once,
 never refunded) / refunded once (error acknowledgement, no effect applied on the destination). -/
-theorem one_outcome (w : World) (steps : List Step) (h : FullInv w) (S D : ChainId) (q : Nat) (h0 : 0 < q)
-    (hq : q < ((run true w steps).chains S).nextSeq D) :
+theorem one_outcome (w : World) (steps : List Step) (h : FullInv w) (S D : ChainId) (q : Nat)
+    (h0 : ((run true w steps).cfg S).seq0 D ≤ q) (hq : q < ((run true w steps).chains S).nextSeq D) :
     let w' := run true w steps
     (PendingOnly w' S D q ∧ ¬ Delivered w' S D q ∧ ¬ Refunded w' S D q) ∨
     (Delivered w' S D q ∧ ¬ PendingOnly w' S D q ∧ ¬ Refunded w' S D q) ∨
@@ -2203,8 +2239,8 @@ theorem ginv_w0 : GInv w0 := by
   · intro S r hr; unfold w0 at hr; by_cases hS : S = 0 <;> simp [hS, Chain.empty] at hr
   · intro S D q _; unfold w0; by_cases hS : S = 0 <;> simp [hS, Chain.empty, Evm.empty, evm0]
   · intro S D q h0 hq
-    unfold w0 at hq
-    by_cases hS : S = 0 <;> simp [hS, Chain.empty] at hq <;> omega
+    unfold w0 at hq h0
+    by_cases hS : S = 0 <;> simp [hS, Chain.empty, cfgA, cfgB] at hq h0 <;> omega
 
 theorem fullinv_w0 : FullInv w0 := ⟨inv_w0, ginv_w0⟩
 
@@ -2338,6 +2374,11 @@ theorem fs_step (w : World) (s : Step) (h : Inv w) (fs : FeeSolvent w) : FeeSolv
   | register i addr rank chains =>
     simp only [step]
     exact feeSolvent_ext (w2 := w) rfl fs
+  | cbset i on =>
+    simp only [step]
+    exact feeSolvent_ext (w2 := w) rfl fs
+  | restart i whole => exact fs
+  | discard s => exact fs
   | recv src dst seq signer =>
     simp only [step]
     split
@@ -2374,10 +2415,12 @@ theorem fs_step (w : World) (s : Step) (h : Inv w) (fs : FeeSolvent w) : FeeSolv
     split
     · exact fs
     rename_i c ha
-    obtain ⟨_, e⟩ := ack_eff ha
+    obtain ⟨_, e⟩ := ack_eff (ackMsg_some ha).1
     exact fs_ack w src c p code fs e
   | mint i t who n =>
     simp only [step]
+    split
+    · exact fs
     refine fs_frame w i _ fs rfl rfl ?_
     intro F
     simp only [credit, upd2_app]
@@ -2417,15 +2460,16 @@ structure FInv (w : World) : Prop where
   f1 : ∀ S p, p ∈ (w.chains S).commits → (w.chains S).evm.feePaid p.dst p.seq = 0
   f2 : ∀ S D q, (w.chains S).nextSeq D ≤ q → (w.chains S).evm.feePaid D q = 0
   f3 : ∀ S D q, (w.chains S).evm.feePaid D q ≤ 1
-  f4 : ∀ S D q, 0 < q → q < (w.chains S).nextSeq D → Pending w S D q ∨ (w.chains S).evm.feePaid D q = 1
+  f4 : ∀ S D q, (w.cfg S).seq0 D ≤ q → q < (w.chains S).nextSeq D → Pending w S D q ∨ (w.chains S).evm.feePaid D q = 1
   gR : ∀ S D q, (w.chains D).receipts S q = true → (w.chains D).acks S q ≠ none
 
-theorem finv_ext {w1 w2 : World} (hch : w1.chains = w2.chains) (g : FInv w2) : FInv w1 := by
+theorem finv_ext {w1 w2 : World} (hc : w1.cfg = w2.cfg) (hch : w1.chains = w2.chains) (g : FInv w2) : FInv w1 := by
   refine ⟨?_, ?_, ?_, ?_, ?_⟩
   · rw [hch]; exact g.f1
   · rw [hch]; exact g.f2
   · rw [hch]; exact g.f3
   · intro S D q h0 hq
+    rw [hc] at h0
     rw [hch] at hq ⊢
     rcases g.f4 S D q h0 hq with h | h
     · exact Or.inl ((pending_ext hch S D q).mpr h)
@@ -2636,7 +2680,12 @@ theorem finv_step (w : World) (s : Step) (h : Inv w) (g : FInv w) : FInv (step t
       exact finv_send w i c p g e
   | register i addr rank chains =>
     simp only [step]
-    exact finv_ext (w2 := w) rfl g
+    exact finv_ext (w2 := w) rfl rfl g
+  | cbset i on =>
+    simp only [step]
+    exact finv_ext (w2 := w) rfl rfl g
+  | restart i whole => exact g
+  | discard s => exact g
   | recv src dst seq signer =>
     simp only [step]
     split
@@ -2648,7 +2697,7 @@ theorem finv_step (w : World) (s : Step) (h : Inv w) (g : FInv w) : FInv (step t
     split
     · exact g
     rename_i c hr
-    refine finv_ext (w2 := w.set dst c) rfl ?_
+    refine finv_ext (w2 := w.set dst c) rfl rfl ?_
     obtain ⟨hd, hrc, code, cR, eR, hfin⟩ := recv_eff hr
     have g1 := finv_recv w dst cR p code g eR
     rcases hfin with h1 | ⟨p2, e2⟩
@@ -2669,10 +2718,12 @@ theorem finv_step (w : World) (s : Step) (h : Inv w) (g : FInv w) : FInv (step t
     split
     · exact g
     rename_i c ha
-    obtain ⟨_, e⟩ := ack_eff ha
+    obtain ⟨_, e⟩ := ack_eff (ackMsg_some ha).1
     exact finv_ack w src c p code h.1 g e
   | mint i t who n =>
     simp only [step]
+    split
+    · exact g
     exact finv_frame w i _ g rfl rfl rfl rfl rfl
   | approve i t who n =>
     simp only [step]
@@ -2700,7 +2751,7 @@ theorem fee_paid_exactly_once (w : World) (steps : List Step) (h : Inv w) (g : F
     let w' := run true w steps
     ((w'.chains S).nextSeq D ≤ q → (w'.chains S).evm.feePaid D q = 0) ∧
     (Pending w' S D q → (w'.chains S).evm.feePaid D q = 0) ∧
-    (0 < q → q < (w'.chains S).nextSeq D → ¬ Pending w' S D q → (w'.chains S).evm.feePaid D q = 1) ∧
+    ((w'.cfg S).seq0 D ≤ q → q < (w'.chains S).nextSeq D → ¬ Pending w' S D q → (w'.chains S).evm.feePaid D q = 1) ∧
     (w'.chains S).evm.feePaid D q ≤ 1 := by
   have g' := finv_run steps w h g
   refine ⟨g'.f2 S D q, ?_, ?_, g'.f3 S D q⟩
@@ -2850,7 +2901,9 @@ theorem refund_ackStatus {cfg : Cfg} {e e' : Evm} {p : Packet} (h : refund cfg e
   split at h
   · cases h
   split at h
-  · have := (Option.some.inj h).symm; subst this; rfl
+  · split at h
+    · cases h
+    have := (Option.some.inj h).symm; subst this; rfl
   · split at h
     · cases h
     split at h
@@ -2935,6 +2988,7 @@ theorem ack_step_uses_destination_code (w : World) (s d : ChainId) (q : Nat) :
     step true w (.ack s d q) = w ∨
     ∃ p code c', findPacket (w.chains s).commits d q = some p ∧ (w.chains d).acks s q = some code ∧
       ackHandler (w.cfg s) s (w.chains s) p code ((w.reg s).onTeleport d (w.ackTag d s q)) = some c' ∧
+      ¬ (p.cbSwitch = true ∧ w.cbFail s = true) ∧
       step true w (.ack s d q) = w.set s c' := by
   simp only [step]
   split
@@ -2946,7 +3000,7 @@ theorem ack_step_uses_destination_code (w : World) (s d : ChainId) (q : Nat) :
   split
   · exact Or.inl rfl
   rename_i c' ha
-  exact Or.inr ⟨p, code, c', hf, hcode, ha, rfl⟩
+  exact Or.inr ⟨p, code, c', hf, hcode, (ackMsg_some ha).1, (ackMsg_some ha).2, rfl⟩
 
 /-- **Observation outside C03, modelled as it is**: the error acknowledgement of a packet WITHOUT transfer data is
 rejected by the source every time (`OnAcknowledgePacket` reverts — the endpoint decodes the empty transfer data — and
@@ -2988,7 +3042,7 @@ theorem ack_unknown_relayer_unchanged (w : World) (s d : ChainId) (q : Nat)
   · rfl
   split
   · rfl
-  rw [hrel, ack_unknown_relayer_rejected]
+  rw [hrel, ackMsg_of_handler_none (ack_unknown_relayer_rejected _ _ _ _ _)]
 
 /-- a receive relayed by an account that is not registered as a relayer for the source chain is rejected and
 changes nothing (no receipt, no acknowledgement): another relayer can deliver the packet -/
@@ -3013,7 +3067,7 @@ theorem ack_call_only_error_rejected_unchanged (w : World) (s d : ChainId) (q : 
     step true w (.ack s d q) = w ∧ Pending w s d q := by
   obtain ⟨hm, hd, hq⟩ := findPacket_some hf
   refine ⟨?_, ⟨p, hm, hd, hq⟩⟩
-  simp only [step, hf, hack, ack_call_only_error_rejected (w.cfg s) s (w.chains s) p code _ hcode ht]
+  simp only [step, hf, hack, ackMsg_of_handler_none (ack_call_only_error_rejected (w.cfg s) s (w.chains s) p code _ hcode ht)]
 
 
 
@@ -3025,8 +3079,8 @@ theorem finv_w0 : FInv w0 := by
   · intro S D q _; unfold w0; by_cases hS : S = 0 <;> simp [hS, Chain.empty, Evm.empty, evm0]
   · intro S D q; unfold w0; by_cases hS : S = 0 <;> simp [hS, Chain.empty, Evm.empty, evm0]
   · intro S D q h0 hq
-    unfold w0 at hq
-    by_cases hS : S = 0 <;> simp [hS, Chain.empty] at hq <;> omega
+    unfold w0 at hq h0
+    by_cases hS : S = 0 <;> simp [hS, Chain.empty, cfgA, cfgB] at hq h0 <;> omega
   · intro S D q hr; unfold w0 at hr; by_cases hD : D = 0 <;> simp [hD, Chain.empty] at hr
 
 theorem feeSolvent_w0 : FeeSolvent w0 := by
@@ -3291,5 +3345,177 @@ example :
       .batch 0 0 true [.approve 1 100000, .fakelog (fakePacket 1 1), leg 1 300 5, .fakelog (fakePacket 1 2), .fakelog (fakePacket 2 1)]]
     (w.chains 0).commits.length = 1 ∧ (w.chains 0).nextSeq 1 = 2 ∧ (w.chains 0).nextSeq 2 = 1 ∧
     (w.chains 0).evm.out 1 1 = 300 ∧ (w.chains 0).evm.out 0 1 = 0 := by decide
+
+/-! ### restarts, discarded executions, the callback switch, planted counters, `uint256` bounds -/
+
+/-- **A restart is the identity**: an export → import restart of the xibc module or of the whole application changes
+nothing the model talks about (escrow, bindings, fee escrow, ack status, counters, commitments, receipts,
+acknowledgements, registry). Every theorem about `run` ranges over histories with restarts at any point. -/
+theorem restart_identity (fixed : Bool) (w : World) (c : ChainId) (whole : Bool) : step fixed w (.restart c whole) = w := rfl
+
+/-- **A discarded execution is the identity**: whatever step ran on a dropped context (Simulate, CheckTx, a failed
+multi-message transaction), the world — and therefore every later verdict — is as if it had not run. -/
+theorem discard_identity (fixed : Bool) (w : World) (s : Step) : step fixed w (.discard s) = w := rfl
+
+theorem discard_then (fixed : Bool) (w : World) (s : Step) (rest : List Step) :
+    run fixed w (.discard s :: rest) = run fixed w rest := rfl
+
+/-- no step changes the static configuration -/
+theorem step_cfg (fixed : Bool) (w : World) (s : Step) : (step fixed w s).cfg = w.cfg := by
+  cases s <;> simp only [step]
+  all_goals (repeat' split) <;> rfl
+
+theorem run_cfg (fixed : Bool) (steps : List Step) : ∀ w : World, (run fixed w steps).cfg = w.cfg := by
+  induction steps with
+  | nil => intro w; rfl
+  | cons s rest ih => intro w; exact (ih (step fixed w s)).trans (step_cfg fixed w s)
+
+/-- flipping the callback switch touches nothing but the switch -/
+theorem cbset_only_switch (fixed : Bool) (w : World) (i : ChainId) (on : Bool) :
+    (step fixed w (.cbset i on)).chains = w.chains ∧ (step fixed w (.cbset i on)).cfg = w.cfg ∧
+    (step fixed w (.cbset i on)).reg = w.reg ∧ (step fixed w (.cbset i on)).ackTag = w.ackTag ∧
+    (step fixed w (.cbset i on)).cbFail i = on := by
+  refine ⟨rfl, rfl, rfl, rfl, ?_⟩
+  simp [step, upd1]
+
+/-- **An acknowledgement whose callback contract reverts is rejected as a whole**: whatever the code, the relayer step
+leaves the world unchanged — commitment, escrow, bindings, status, fee escrow — and the packet stays `Pending`. -/
+theorem ack_callback_reverts_unchanged (w : World) (s d : ChainId) (q : Nat) (p : Packet)
+    (hf : findPacket (w.chains s).commits d q = some p) (hcb : p.cbSwitch = true) (hon : w.cbFail s = true) :
+    step true w (.ack s d q) = w ∧ Pending w s d q := by
+  obtain ⟨hm, hd, hq⟩ := findPacket_some hf
+  refine ⟨?_, ⟨p, hm, hd, hq⟩⟩
+  simp only [step, hf]
+  split
+  · rfl
+  · simp [ackMsg, hcb, hon]
+
+/-- **… and the retry settles it**: once the callback goes through again (switch off), the same acknowledgement is
+processed exactly as the handler prescribes — the failed first delivery left no trace (`step` is a function of the
+current world only), so the refund of an error acknowledgement happens then, once. -/
+theorem ack_retry_after_callback_failure (w : World) (s d : ChainId) (q : Nat) (p : Packet) (code : Nat)
+    (hf : findPacket (w.chains s).commits d q = some p) (hack : (w.chains d).acks s q = some code)
+    (hcb : p.cbSwitch = true) (hon : w.cbFail s = true) :
+    let w1 := step true w (.ack s d q)               -- first delivery: the callback reverts
+    let w2 := step true w1 (.cbset s false)          -- the callback contract is repaired
+    w1 = w ∧
+    step true w2 (.ack s d q) =
+      (match ackHandler (w.cfg s) s (w.chains s) p code ((w.reg s).onTeleport d (w.ackTag d s q)) with
+       | none => w2
+       | some c => w2.set s c) := by
+  intro w1 w2
+  have h1 : w1 = w := (ack_callback_reverts_unchanged w s d q p hf hcb hon).1
+  refine ⟨h1, ?_⟩
+  have hw2 : w2 = { w with cbFail := upd1 w.cbFail s false } := by
+    show step true w1 (.cbset s false) = _
+    rw [h1]; rfl
+  rw [hw2]
+  simp only [step, hf, hack, ackMsg, upd1]
+  simp only [↓reduceIte, Bool.false_eq_true, and_false]
+  generalize ackHandler (w.cfg s) s (w.chains s) p code ((w.reg s).onTeleport d (w.ackTag d s q)) = r
+  cases r <;> rfl
+
+/-- `type(uint256).max` is an unlimited allowance: `transferFrom` / `burnFrom` do not consume it -/
+theorem unlimited_allowance_not_consumed (e : Evm) (t : Token) (a : Acct) (n : Nat) (ht : t ≠ 0)
+    (h : e.allow t a = U256 - 1) (hn : n < U256) : spend e t a n = some e := by
+  unfold spend
+  have h2 : n ≤ U256 - 1 := by omega
+  simp [ht, h, h2]
+
+/-- a transfer whose minted amount (amount·10^scale) or whose new total supply does not fit a `uint256` is not
+executed: `recvTransfer` fails, so the destination writes an error acknowledgement and keeps no effect
+(`recv_error_no_effect`), and the source refunds -/
+theorem recvTransfer_overflow (cfg : Cfg) (e : Evm) (p : Packet) (t : Transfer) (v : Token)
+    (ht : p.transfer = some t) (hori : t.ori = none) (hv : cfg.trace p.src t.token = some v)
+    (hov : U256 ≤ e.supply v + t.amount * 10 ^ cfg.scale v p.src) : recvTransfer cfg e p = none := by
+  unfold recvTransfer
+  simp [ht, hori, hv, hov]
+
+/-- minting an origin token beyond 2^256-1 fails and changes nothing -/
+theorem mint_overflow_unchanged (fixed : Bool) (w : World) (i : ChainId) (t : Token) (who : Acct) (n : Nat)
+    (h : U256 ≤ ((w.chains i).evm.supply t) + n) : step fixed w (.mint i t who n) = w := by
+  simp [step, h]
+
+/-! planted counters: a world in which nothing has happened yet satisfies every invariant, wherever its send counters
+start (`Cfg.seq0`, e.g. 2^63 or 2^64-2 from an imported genesis) — so `conserved_run`, `one_outcome`, `no_double_hold`,
+`fee_solvent_run`, `fee_paid_exactly_once` hold for histories on such chains, "every sequence ever sent" meaning every
+sequence from `seq0` up to the counter. -/
+
+structure Pristine (w : World) : Prop where
+  cfg : ∀ B A T V, (w.cfg B).trace A T = some V ↔ (w.cfg B).ori V A = some T
+  commits : ∀ i, (w.chains i).commits = []
+  next : ∀ i d, (w.chains i).nextSeq d = (w.cfg i).seq0 d
+  rcpt : ∀ i s q, (w.chains i).receipts s q = false
+  acks : ∀ i s q, (w.chains i).acks s q = none
+  out : ∀ i t d, (w.chains i).evm.out t d = 0
+  bind : ∀ i t d, (w.chains i).evm.bindAmt t d = 0
+  cred : ∀ i s q, (w.chains i).evm.credited s q = 0
+  refd : ∀ i s q, (w.chains i).evm.refunded s q = 0
+  fpd : ∀ i s q, (w.chains i).evm.feePaid s q = 0
+
+theorem pristine_invariants (w : World) (h : Pristine w) : FullInv w ∧ FInv w ∧ FeeSolvent w := by
+  refine ⟨⟨⟨⟨h.cfg, ?_, ?_, ?_, ?_⟩, ?_⟩, ⟨?_, ?_, ?_, ?_, ?_⟩⟩, ⟨?_, ?_, ?_, ?_, ?_⟩, ?_⟩
+  · intro A p hp; rw [h.commits] at hp; cases hp
+  · intro A; rw [h.commits]; exact List.Pairwise.nil
+  · intro A B s hn; exact absurd (h.acks B A s) hn
+  · intro A B s hr; rw [h.rcpt] at hr; cases hr
+  · intro A B T _
+    unfold eqn
+    split <;> simp [h.commits, h.out, h.bind, flight]
+  · intro S D q; rw [h.cred, h.acks]; simp
+  · intro S D q; rw [h.refd]; exact ⟨Nat.zero_le _, fun h0 => absurd h0 (by decide)⟩
+  · intro S p hp; exact h.refd S _ _
+  · intro S D q _; exact h.refd S D q
+  · intro S D q h0 hq; rw [h.next] at hq; omega
+  · intro S p hp; exact h.fpd S _ _
+  · intro S D q _; exact h.fpd S D q
+  · intro S D q; rw [h.fpd]; exact Nat.zero_le _
+  · intro S D q h0 hq; rw [h.next] at hq; omega
+  · intro S D q hr; rw [h.rcpt] at hr; cases hr
+  · intro S F; unfold escrowFee; rw [h.commits]; exact Nat.zero_le _
+
+/-- chain 0 with its send counter towards chain 1 planted at 2^63, chain 1 with its counter towards chain 0 at 2^64-2 -/
+def cfgAP : Cfg := { cfgA with seq0 := fun d => if d = 1 then 2 ^ 63 else 1 }
+def cfgBP : Cfg := { cfgB with seq0 := fun d => if d = 0 then 2 ^ 64 - 2 else 1 }
+def wP : World :=
+  { cfg := fun i => if i = 0 then cfgAP else cfgBP,
+    chains := fun i =>
+      if i = 0 then { Chain.empty with evm := evm0, nextSeq := fun d => if d = 1 then 2 ^ 63 else 1 }
+      else { Chain.empty with nextSeq := fun d => if d = 0 then 2 ^ 64 - 2 else 1 },
+    reg := reg0, ackTag := fun _ _ _ => 0 }
+
+theorem pristine_wP : Pristine wP := by
+  refine ⟨?_, ?_, ?_, ?_, ?_, ?_, ?_, ?_, ?_, ?_⟩
+  · intro B A T V
+    have := inv_w0.1.cfg B A T V
+    unfold w0 at this; unfold wP cfgAP cfgBP
+    by_cases hB : B = 0 <;> simp only [hB, ↓reduceIte] at this ⊢ <;> exact this
+  all_goals intro i
+  all_goals unfold wP cfgAP cfgBP
+  all_goals by_cases hi : i = 0 <;> simp [hi, Chain.empty, Evm.empty, evm0]
+
+example : Conserved (run true wP [.send 0 0 (sendArgs (.plain .fail) 6), .recv 0 1 (2 ^ 63) 0, .restart 0 true,
+    .discard (.ack 0 1 (2 ^ 63)), .ack 0 1 (2 ^ 63)]) :=
+  conserved_run wP _ (pristine_invariants wP pristine_wP).1.1
+
+example :
+    let w := run true wP [.send 0 0 (sendArgs (.plain .fail) 6), .recv 0 1 (2 ^ 63) 0, .restart 0 true,
+      .discard (.ack 0 1 (2 ^ 63)), .ack 0 1 (2 ^ 63)]
+    (w.chains 0).nextSeq 1 = 2 ^ 63 + 1 ∧ (w.chains 1).acks 0 (2 ^ 63) = some 3 ∧ (w.chains 0).commits.length = 0 ∧
+    (w.chains 0).evm.refunded 1 (2 ^ 63) = 1 ∧ (w.chains 0).evm.out 1 1 = 0 ∧ (w.chains 0).evm.bal 1 0 = 10000 := by decide
+
+/-- a concrete history: the error acknowledgement of a packet whose callback contract reverts is rejected (nothing
+changes), the retry after the switch is off refunds once -/
+def cbSteps1 : List Step :=
+  [.send 0 0 { sendArgs (.plain .fail) 6 with cbSwitch := true }, .recv 0 1 1 0, .cbset 0 true, .ack 0 1 1]
+def cbSteps2 : List Step := cbSteps1 ++ [.cbset 0 false, .ack 0 1 1]
+
+example :
+    ((run true w0 cbSteps1).chains 0).commits.length = 1 ∧ ((run true w0 cbSteps1).chains 0).evm.out 1 1 = 2000 ∧
+    ((run true w0 cbSteps1).chains 0).evm.ackStatus 1 1 = 0 ∧ ((run true w0 cbSteps1).chains 0).evm.refunded 1 1 = 0 ∧
+    ((run true w0 cbSteps1).chains 0).evm.feePaid 1 1 = 0 ∧
+    ((run true w0 cbSteps2).chains 0).commits.length = 0 ∧ ((run true w0 cbSteps2).chains 0).evm.out 1 1 = 0 ∧
+    ((run true w0 cbSteps2).chains 0).evm.ackStatus 1 1 = 2 ∧ ((run true w0 cbSteps2).chains 0).evm.refunded 1 1 = 1 ∧
+    ((run true w0 cbSteps2).chains 0).evm.feePaid 1 1 = 1 ∧ ((run true w0 cbSteps2).chains 0).evm.bal 1 0 = 10000 := by decide
 
 end TM.World
